@@ -1,14 +1,306 @@
 (* Props/C04.v -- C04: a name resolves to what Python would bind it to, or not at all.
-   Only statements closed by `exact`; proofs live in Proofs/NamesProofs.v.
-   Model: Model/Names.v (pydoctor astbuilder/model name binding and expansion). Spec: Spec/PyImport.v (CPython). *)
+   Only statements closed by `exact` (+ vm_compute witnesses); proofs live in Proofs/NamesProofs.v (relative-import
+   arithmetic, Layer A: soundness of expandName in every state satisfying the registry / alias-map invariants,
+   soundness of the Spec evaluator) and Proofs/NamesInvProofs.v (Layer B: the visitor establishes the invariants).
+   Model: Model/Names.v (pydoctor astbuilder/model).  Spec: Spec/PyImport.v (CPython binding, relations py_ns, py_attr, py_abs).
+
+   Reading guide.  `py_abs P q v` : the dotted name q, read as a Python expression over sys.modules, has value v.
+   `py_lookup P m qual dotted v` : in the namespace of module m / class m.qual the (dotted) name has value v.
+   `denotes o v` : the pydoctor object o (by its identity = full name at definition) is the Python object v.
+   `trail_ok st ctx true dotted` : the walk of expandName binds the first part in ctx itself and never finds a later
+   part by falling back from a class to its enclosing scope -- the two fallbacks that the _refuted theorems show
+   to be unsound in pydoctor as it is.
+
+   What is NOT proved here (only tied by the correspondence check and the oracle): whole-project soundness when the
+   project contains `x = y.z` aliases, base-class expressions, `import *` or re-exports (Layer A covers them under
+   the stated invariants, C04_star_sound_partial / C04_expand_sound; establishing the invariants for those statements
+   needs "every earlier statement has been visited" facts that are not mechanised); completeness ("always
+   resolves") is proved at the level of the state the visitor leaves (C04_direct_import_resolves,
+   C04_module_alias_resolves), not from the project text. *)
 From Coq Require Import NArith List Bool Arith.
-From PydoctorVerif Require Import Base.ImportSyntax Model.Names Spec.PyImport Proofs.NamesProofs.
+From PydoctorVerif Require Import Base.ImportSyntax Model.Names Spec.PyImport Proofs.NamesProofs Proofs.NamesInvProofs.
 Import ListNotations.
 
-(* pydoctor's relative-import arithmetic (level-1 steps up from a package, level steps from a module, "too high"
-   when it walks off the root) is importlib._bootstrap._resolve_name, for every module path, flag, level and
-   module name -- including the error case. *)
+(* 1. pydoctor's relative-import arithmetic (level-1 steps up from a package, level steps from a module, "too
+   high" when it walks off the root) is importlib._bootstrap._resolve_name, for every module path, flag, level
+   and module name -- including the error case. *)
 Theorem C04_relative_level :
   forall (mpath : path) (is_pkg : bool) (level : nat) (modname : path),
     mpath <> [] -> import_base mpath is_pkg level modname = resolve_relative mpath is_pkg level modname.
 Proof. exact relative_level. Qed.
+
+(* 2. Every alias-map entry that visit_Import / _importNames write for an import statement of a namespace
+   (module or class body) is, read as an absolute Python expression, the object or module CPython binds the local
+   name to: `import a.b` -> a |-> "a"; `import a.b as c` -> c |-> "a.b"; `from [..]X import n [as k]` ->
+   k |-> "<X resolved>.n" (plain, aliased and relative).  For every well-formed project and every scope. *)
+Theorem C04_alias_map_sound :
+  forall P, wf_project P ->
+  forall m qual body mm, scope_body P m qual = Some body -> wf_body body -> find_module P m = Some mm ->
+    (forall a t, In (SImport (a :: t) None) body ->
+       forall v, py_attr P (scope_val m qual) a v -> py_abs P [a] v) /\
+    (forall c t, In (SImport t (Some c)) body ->
+       forall v, py_attr P (scope_val m qual) c v -> py_abs P t v) /\
+    (forall level modname names orig asname X,
+       In (SFrom level modname names) body -> In (orig, asname) names ->
+       import_base m (m_pkg mm) level modname = Some X ->
+       forall v, py_attr P (scope_val m qual) (bound_of (orig, asname)) v -> py_abs P (X ++ [orig]) v).
+Proof.
+  intros P WF m qual body mm Hsb Hwf Hfm. split; [|split].
+  - intros a t Hin. exact (proj1 (entry_import_top P m qual body a t Hsb Hwf Hin)).
+  - intros c t Hin. exact (proj1 (entry_import_as P WF m qual body c t Hsb Hwf Hin)).
+  - intros level modname names orig asname X Hin Hin2 Hib.
+    exact (proj1 (entry_from P WF m qual body mm level modname names orig asname X Hsb Hwf Hfm Hin Hin2 Hib)).
+Qed.
+
+(* 3. Soundness of expandName / resolveName (induction on the dotted parts; invariant: the object reached so far
+   is what Python evaluated the prefix to).  For EVERY state satisfying the invariants `coherent` (registry sound,
+   alias entries sound, class members owned by the class, Class.find sound): whenever the name is bound at run
+   time, the dotted name expandName returns denotes the same value, hence resolveName never returns another object. *)
+Theorem C04_expand_sound :
+  forall P st, coherent P st ->
+  forall ctx m qual dotted v,
+    In ctx (objs st) -> py_abs P (o_path ctx) (scope_val m qual) ->
+    py_lookup P m qual dotted v ->
+    trail_ok st ctx true dotted = true ->
+    py_abs P (expand_name st ctx dotted) v /\
+    (forall o, resolve_name st ctx dotted = Some o -> denotes o v).
+Proof.
+  intros P st Hc ctx m qual dotted v Hin Habs Hpy Hok. split.
+  - eapply expand_sound; eassumption.
+  - intros o Hr. eapply resolve_sound; eassumption.
+Qed.
+
+(* 3b. ... and the invariants DO hold after pydoctor has processed any well-formed project made of import
+   statements of every form (plain, `as`, `from`, relative, inside class bodies, package re-imports), function
+   and class definitions (nested), under every processing order: whole-project soundness on that subset.
+   (_partial: alias assignments, base expressions, `import *` and re-exports are excluded by simple_project /
+   wf_project; see the header.) *)
+Theorem C04_expand_sound_project_partial :
+  forall P order ctx m qual dotted v o,
+    wf_project P -> simple_project P = true ->
+    let st := final_state P order in
+    In ctx (objs st) -> py_abs P (o_path ctx) (scope_val m qual) ->
+    py_lookup P m qual dotted v ->
+    trail_ok st ctx true dotted = true ->
+    resolve_name st ctx dotted = Some o ->
+    denotes o v.
+Proof. exact expand_sound_project. Qed.
+
+Theorem C04_invariants_established_partial :
+  forall P order, wf_project P -> simple_project P = true -> coherent P (final_state P order).
+Proof. intros P order WF S. exact (final_coherent P WF S order). Qed.
+
+(* 4. `from X import *` (module processed at the time of the import): the entry _importAll writes for a name n
+   that the imported module itself binds, `expandName(n)` evaluated in that module, denotes X.n -- which is what
+   CPython's star import binds n to.  (_partial: names reaching the importer only because X lists them in __all__
+   without binding them, and the PROCESSING (cycle) case, are outside.) *)
+Theorem C04_star_sound_partial :
+  forall P st, coherent P st ->
+  forall mo X n v,
+    In mo (objs st) -> py_abs P (o_path mo) (VMod X) -> py_ns P X [] n v ->
+    is_some (child st mo n) || is_some (assoc n (o_amap mo)) = true ->
+    py_abs P (expand_name st mo [n]) v.
+Proof.
+  intros P st Hc mo X n v Hin Habs Hns Hown.
+  eapply (expand_sound P st Hc mo X [] [n] v); try eassumption.
+  - unfold py_lookup. econstructor; [apply pn_own; exact Hns | constructor].
+  - cbn [trail_ok]. rewrite Hown. cbn [negb andb]. rewrite andb_false_r. reflexivity.
+Qed.
+
+(* 5. Names that always resolve, at the level of the state the visitor leaves behind.
+   (a) a name whose alias entry points at a registered full name resolves to that object: this is the case of
+       `from <defining module> import <name>` as long as the object still lives under "<defining module>.<name>". *)
+Theorem C04_direct_import_resolves :
+  forall st ctx k q o,
+    child st ctx k = None -> assoc k (o_amap ctx) = Some q -> obj_for st q = Some o ->
+    resolve_name st ctx [k] = Some o.
+Proof. exact direct_import_resolves. Qed.
+
+(* (b) through a module alias (`import X as k` / `from P import S as k`), k.n resolves to the member n of X -- and
+       also when n has been moved away by a re-export, through the alias that reparent leaves in X: no guard. *)
+Theorem C04_module_alias_resolves :
+  forall st ctx k X mo n o,
+    child st ctx k = None -> assoc k (o_amap ctx) = Some X -> obj_for st X = Some mo -> X <> [] ->
+    (child st mo n = Some o \/
+     (child st mo n = None /\
+      exists q, assoc n (o_amap mo) = Some q /\ path_eqb q [n] = false /\ obj_for st q = Some o)) ->
+    resolve_name st ctx [k; n] = Some o.
+Proof. exact module_alias_resolves. Qed.
+
+(* ------------------------------------------------------------------------------------------------------------
+   Witnesses.  Atoms: even = public identifier, odd = identifier starting with '_'. *)
+Local Open Scope N_scope.
+Definition mk (p : path) (pkg : bool) (al : option (list name)) (b : list stmt) : module_src :=
+  {| m_path := p; m_pkg := pkg; m_all := al; m_body := b |}.
+
+(* (5a) without its guard is FALSE of pydoctor as it is: DESIGN.md 7.3.
+     pkg/__init__.py : from ._impl import Foo ; __all__ = ['Foo']         pkg=2 _impl=3 Foo=4
+     pkg/_impl.py    : class Foo: pass
+     cons.py         : from pkg._impl import Foo ; class X(Foo): pass      cons=6 X=8
+   Foo is imported directly from the module that defines it, Python binds cons.Foo to pkg._impl.Foo, and pydoctor's
+   resolveName('Foo') in cons is None (under this and every other order: see the correspondence check), because
+   _handleReExport moved the object to pkg.Foo and expandName stops at the stale string "pkg._impl.Foo". *)
+Definition w1 : project :=
+  [ mk [2] true (Some [4]) [SFrom 1 [3] [(4, None)]];
+    mk [2;3] false None [SClass 4 None []];
+    mk [6] false None [SFrom 0 [2;3] [(4, None)]; SClass 8 (Some [4]) []] ].
+
+Theorem C04_direct_import_resolves_refuted :
+  exists P order ctx X n,
+    (exists mc, find_module P ctx = Some mc /\ In (SFrom 0 X [(n, None)]) (m_body mc)) /\
+    (exists md base body, find_module P X = Some md /\ In (SClass n base body) (m_body md)) /\
+    py_lookup P ctx [] [n] (VObj X [n]) /\
+    resolve_in (final_state P order) ctx [n] = None /\
+    (* the object exists, under the re-exporter's name: *)
+    (exists o, obj_for (final_state P order) [2; 4] = Some o /\ o_id o = X ++ [n]).
+Proof.
+  exists w1, [[6]; [2]; [2;3]], [6], [2;3], 4.
+  split; [|split; [|split; [|split]]].
+  - eexists. split; [reflexivity | cbn; auto].
+  - eexists. exists None, []. split; [reflexivity | cbn; auto].
+  - apply (ev_sound w1 eq_refl 20%nat (REval [6] [] [4])). vm_compute. reflexivity.
+  - vm_compute. reflexivity.
+  - eexists. split; vm_compute; reflexivity.
+Qed.
+
+(* A class nested in a class sees its ENCLOSING CLASS scope in pydoctor, never in Python:
+     m.py:  class A0: pass ; class B0: pass ; x = A0                       m=2 A0=4 B0=6 x=8
+            class Out:  x = B0 ;  class In:  y = x                         Out=10 In=12 y=14
+   In the namespace m.Out.In the name y is A0 at run time; pydoctor resolves it to B0. *)
+Definition w2 : project :=
+  [ mk [2] false None [SClass 4 None []; SClass 6 None []; SAlias 8 [4];
+                       SClass 10 None [SAlias 8 [6]; SClass 12 None [SAlias 14 [8]]]] ].
+
+Theorem C04_nested_class_scope_refuted :
+  exists P order m qual dotted o v,
+    resolve_in (final_state P order) (m ++ qual) dotted = Some o /\
+    py_lookup P m qual dotted v /\ o_id o <> flat v.
+Proof.
+  exists w2, [[2]], [2], [10; 12], [14].
+  destruct (resolve_in (final_state w2 [[2]]) ([2] ++ [10; 12]) [14]) as [o|] eqn:E; [|vm_compute in E; discriminate].
+  exists o, (VObj [2] [4]). split; [exact E|split].
+  - apply (ev_sound w2 eq_refl 20%nat (REval [2] [10; 12] [14])). vm_compute. reflexivity.
+  - vm_compute in E. inversion E; subst. vm_compute. discriminate.
+Qed.
+
+(* expandName('C.helper') looks in C, then in the MODULE around C, and only then in C's bases:
+     d.py: def helper(): ... ; def thing(): ...                           d=2 helper=4 thing=6
+     b.py: import d ; class Base: helper = d.thing                        b=8 Base=10
+     m.py: from d import helper ; from b import Base ; class C(Base): pass   m=12 C=14
+   In m, C.helper is d.thing at run time (inherited); pydoctor resolves it to d.helper. *)
+Definition w3 : project :=
+  [ mk [2] false None [SDef 4; SDef 6];
+    mk [8] false None [SImport [2] None; SClass 10 None [SAlias 4 [2;6]]];
+    mk [12] false None [SFrom 0 [2] [(4, None)]; SFrom 0 [8] [(10, None)]; SClass 14 (Some [10]) []] ].
+
+Theorem C04_class_attr_scope_refuted :
+  exists P order m qual dotted o v,
+    resolve_in (final_state P order) (m ++ qual) dotted = Some o /\
+    py_lookup P m qual dotted v /\ o_id o <> flat v.
+Proof.
+  exists w3, [[12]; [8]; [2]], [12], [], [14; 4].
+  destruct (resolve_in (final_state w3 [[12]; [8]; [2]]) ([12] ++ []) [14; 4]) as [o|] eqn:E; [|vm_compute in E; discriminate].
+  exists o, (VObj [2] [6]). split; [exact E|split].
+  - apply (ev_sound w3 eq_refl 20%nat (REval [12] [] [14; 4])). vm_compute. reflexivity.
+  - vm_compute in E. inversion E; subst. vm_compute. discriminate.
+Qed.
+
+(* both witnesses are excluded by the guard of C04_expand_sound *)
+Example C04_refuted_witnesses_fail_the_guard :
+  (match obj_for (final_state w3 [[12]; [8]; [2]]) [12] with
+   | Some c => trail_ok (final_state w3 [[12]; [8]; [2]]) c true [14; 4]
+   | None => true
+   end) = false.
+Proof. vm_compute. reflexivity. Qed.
+
+(* ------------------------------------------------------------------------------------------------------------
+   Non-vacuity: a package with a relative import, a consumer with a renamed from-import and a module alias.
+     p/__init__.py: from .m import Foo          p=2 m=4 Foo=6 meth=8
+     p/m.py       : class Foo:  def meth(self)
+     c.py         : from p.m import Foo as F ; import p.m as pm           c=10 F=12 pm=14 *)
+Definition e0 : project :=
+  [ mk [2] true None [SFrom 1 [4] [(6, None)]];
+    mk [2;4] false None [SClass 6 None [SDef 8]];
+    mk [10] false None [SFrom 0 [2;4] [(6, Some 12)]; SImport [2;4] (Some 14)] ].
+
+Ltac split_eqb :=
+  repeat match goal with
+         | H : context[N.eqb ?a ?n] |- _ => destruct (N.eqb_spec a n); subst; cbn -[N.eqb] in H
+         | |- context[N.eqb ?a ?n] => destruct (N.eqb_spec a n); subst; cbn -[N.eqb]
+         end.
+Ltac in_cases H :=
+  cbn in H; repeat (destruct H as [H | H]; [try (inversion H; subst; clear H) | ]); try (destruct H).
+Ltac wf_body_tac :=
+  repeat (constructor;
+    [ let s := fresh "s" in let n := fresh "n" in let b := fresh "b" in let Hi := fresh "Hi" in let Hs := fresh "Hs" in
+      intros s n b Hi Hs; in_cases Hi; cbn -[N.eqb] in Hs; cbn -[N.eqb]; split_eqb; try discriminate; try congruence; try exact Hs
+    | let Hi := fresh "Hi" in intros ? ? ? Hi; in_cases Hi; repeat constructor; cbn; intuition discriminate
+    | let Hi := fresh "Hi" in intros ? ? ? Hi; in_cases Hi ]).
+
+Example C04_example_wf : wf_project e0 /\ simple_project e0 = true.
+Proof.
+  split; [|reflexivity]. constructor.
+  - intros mm H. in_cases H; discriminate.
+  - intros mm H. in_cases H; reflexivity.
+  - intros mm q n H Hp Hq. in_cases H; cbn in Hp.
+    + destruct q as [|? [|? ?]]; try discriminate; congruence.
+    + destruct q as [|a [|? ?]]; cbn in Hp; try discriminate; try congruence.
+      * inversion Hp; subst. eexists. split; reflexivity.
+      * inversion Hp. destruct l; discriminate.
+    + destruct q as [|? [|? ?]]; try discriminate; congruence.
+  - intros pm n H Hm. in_cases H; unfold is_module, find_module in Hm; cbn -[N.eqb] in Hm; split_eqb; try discriminate; reflexivity.
+  - intros mm H. in_cases H; cbn; wf_body_tac.
+  - intros mm n H Hn. in_cases H; cbn in Hn; reflexivity.
+Qed.
+
+(* all hypotheses of C04_expand_sound_project_partial hold for c.py and the names `F` and `pm.Foo.meth`,
+   and the theorem's conclusion is the expected object *)
+Example C04_hypotheses_satisfiable :
+  let st := final_state e0 [[10]; [2]; [2;4]] in
+  exists ctx o1 o2,
+    In ctx (objs st) /\ py_abs e0 (o_path ctx) (scope_val [10] []) /\
+    py_lookup e0 [10] [] [12] (VObj [2;4] [6]) /\ trail_ok st ctx true [12] = true /\
+    resolve_name st ctx [12] = Some o1 /\ o_id o1 = [2;4;6] /\
+    py_lookup e0 [10] [] [14;6;8] (VObj [2;4] [6;8]) /\ trail_ok st ctx true [14;6;8] = true /\
+    resolve_name st ctx [14;6;8] = Some o2 /\ o_id o2 = [2;4;6;8] /\
+    denotes o1 (VObj [2;4] [6]) /\ denotes o2 (VObj [2;4] [6;8]).
+Proof.
+  intro st.
+  destruct (obj_for st [10]) as [ctx|] eqn:Ectx; [|vm_compute in Ectx; discriminate].
+  destruct (resolve_name st ctx [12]) as [o1|] eqn:E1;
+    [|vm_compute in Ectx; inversion Ectx; subst; vm_compute in E1; discriminate].
+  destruct (resolve_name st ctx [14;6;8]) as [o2|] eqn:E2;
+    [|vm_compute in Ectx; inversion Ectx; subst; vm_compute in E2; discriminate].
+  pose proof (obj_for_some _ _ _ Ectx) as [Hin Hp].
+  assert (Habs : py_abs e0 (o_path ctx) (scope_val [10] [])).
+  { rewrite Hp. apply (ev_abs_sound e0 20%nat [10]); reflexivity. }
+  assert (Hl1 : py_lookup e0 [10] [] [12] (VObj [2;4] [6])).
+  { apply (ev_sound e0 eq_refl 20%nat (REval [10] [] [12])). vm_compute. reflexivity. }
+  assert (Hl2 : py_lookup e0 [10] [] [14;6;8] (VObj [2;4] [6;8])).
+  { apply (ev_sound e0 eq_refl 20%nat (REval [10] [] [14;6;8])). vm_compute. reflexivity. }
+  assert (Ht1 : trail_ok st ctx true [12] = true).
+  { vm_compute in Ectx. inversion Ectx; subst. vm_compute. reflexivity. }
+  assert (Ht2 : trail_ok st ctx true [14;6;8] = true).
+  { vm_compute in Ectx. inversion Ectx; subst. vm_compute. reflexivity. }
+  exists ctx, o1, o2. repeat split; try assumption.
+  - vm_compute in Ectx. inversion Ectx; subst. vm_compute in E1. inversion E1; subst. reflexivity.
+  - vm_compute in Ectx. inversion Ectx; subst. vm_compute in E2. inversion E2; subst. reflexivity.
+  - apply (C04_expand_sound_project_partial e0 [[10]; [2]; [2;4]] ctx [10] [] [12] _ o1
+             (proj1 C04_example_wf) (proj2 C04_example_wf) Hin Habs Hl1 Ht1 E1).
+  - apply (C04_expand_sound_project_partial e0 [[10]; [2]; [2;4]] ctx [10] [] [12] _ o1
+             (proj1 C04_example_wf) (proj2 C04_example_wf) Hin Habs Hl1 Ht1 E1).
+  - apply (C04_expand_sound_project_partial e0 [[10]; [2]; [2;4]] ctx [10] [] [14;6;8] _ o2
+             (proj1 C04_example_wf) (proj2 C04_example_wf) Hin Habs Hl2 Ht2 E2).
+  - apply (C04_expand_sound_project_partial e0 [[10]; [2]; [2;4]] ctx [10] [] [14;6;8] _ o2
+             (proj1 C04_example_wf) (proj2 C04_example_wf) Hin Habs Hl2 Ht2 E2).
+Qed.
+
+(* the positive "always resolves" theorems apply to the witness of the refuted one through the module alias:
+   cons could reach the moved class as `import pkg._impl as i; i.Foo` (alias left behind by reparent) *)
+Example C04_module_alias_after_reexport :
+  let st := final_state w1 [[6]; [2]; [2;3]] in
+  exists mo o, obj_for st [2;3] = Some mo /\ child st mo 4 = None /\
+               assoc 4 (o_amap mo) = Some [2;4] /\ obj_for st [2;4] = Some o /\ o_id o = [2;3;4].
+Proof.
+  intro st. eexists. eexists. repeat split; vm_compute; reflexivity.
+Qed.
